@@ -26,6 +26,7 @@ package main
 //	         PollDelay - PollDelay/2 after the release); notify reader: release, then append
 //	t<n>     truncate the file at the path to n bytes, in place (copytruncate rotation; no-op if there is none or it is
 //	         not longer than n); the bytes appended last are no longer waited for
+//	m        rename the file at the path away (`mv f f.1`: logrotate's default rotation); no-op if there is none
 //	q<hex>   append without expecting delivery (the steps `w`, `d` and the end of the history do not wait for these bytes)
 //
 // Answer: ok <delivered hex> eof=<0|1> drainerr=<0|1>.  All waits are bounded; a wait that expires
@@ -76,6 +77,7 @@ func (c *c15Run) waitFor(pred func() bool, max time.Duration) bool {
 }
 
 var c15Counters = map[string]int{}
+var c15Renames int
 
 func c15Follow(f []string) string {
 	mode, reopen, tail := f[1], f[2] == "1", f[3] == "1"
@@ -208,6 +210,12 @@ func c15Follow(f []string) string {
 		case 'q':
 			appendBytes(UnHex(arg))
 			last = nil
+		case 'm':
+			if exists() {
+				c15Renames++
+				os.Rename(path, fmt.Sprintf("%s.%d", path, c15Renames))
+				c15Counters["history.rename_away"]++
+			}
 		case 't':
 			n, _ := strconv.Atoi(arg)
 			if st, err := os.Stat(path); err == nil && st.Size() > int64(n) {
@@ -513,6 +521,79 @@ func c15GenCase(r *Rand) string {
 	return fmt.Sprintf("follow %s %d %d %s", mode, ro, tl, strings.Join(g.steps, ","))
 }
 
+// Rotation by rename (`mv f f.1`, then a new file at the path).  Re-open follow: like remove + create (notify: the
+// Rename event raises the delete signal; poll: Stat finds another / no file).  Plain notify follow keeps the renamed
+// file open, does not end and does not follow the new file; plain polling follow ends when Stat finds no file.
+func c15GenRenameCase(r *Rand) string {
+	g := &c15Gen{r: r}
+	mode := Pick(r, []string{"notify", "poll"})
+	reopen := r.Chance(2, 3)
+	tail := r.Chance(1, 4)
+	if r.Chance(1, 4) {
+		g.add("i-")
+	} else {
+		g.add("i" + Hex(g.chunk(3, 40)))
+	}
+	if r.Chance(1, 2) {
+		g.add(fmt.Sprintf("B%d", Pick(r, []int{1, 2, 3, 7, 16, 64, 4096})))
+	}
+	if mode == "poll" && r.Chance(1, 2) {
+		g.add(fmt.Sprintf("A%d", Pick(r, []int{1, 2, 3, 5})))
+	}
+	g.appends(r.Range(0, 3))
+	rot := 1
+	if reopen {
+		rot = r.Range(1, 3)
+	}
+	for i := 0; i < rot; i++ {
+		windowed := r.Chance(1, 3) || (mode == "poll" && !reopen)
+		if windowed { // the rotation happens while the consumer is busy
+			g.add("H" + Hex(g.chunk(12, 24)))
+			g.add("m")
+			if reopen || r.Bool() {
+				g.add("c")
+				g.add("q" + Hex(g.short()))
+			}
+			g.add(fmt.Sprintf("p%d", r.Range(5, 30)))
+			g.add("r")
+			if reopen {
+				g.add("a" + Hex(g.short()))
+				g.add("w")
+			}
+		} else {
+			g.add("a" + Hex(g.chunk(12, 24)))
+			g.add("w")
+			g.add("m")
+			if r.Chance(1, 3) {
+				g.add(fmt.Sprintf("p%d", r.Range(0, 12)))
+			}
+			g.add("c")
+			if reopen {
+				g.add("a" + Hex(g.short()))
+				g.add("w")
+			} else { // plain notify: the new file is not followed
+				g.add("q" + Hex(g.chunk(3, 12)))
+				g.add("p20")
+			}
+		}
+		if reopen {
+			g.appends(r.Range(0, 3))
+		}
+	}
+	if !reopen && mode == "notify" && r.Bool() {
+		g.add("x") // the file now at the path is removed: a Remove event of the followed name ends plain follow
+		g.add("p30")
+	}
+	ro, tl := 0, 0
+	if reopen {
+		ro = 1
+	}
+	if tail {
+		tl = 1
+	}
+	return fmt.Sprintf("follow %s %d %d %s", mode, ro, tl, strings.Join(g.steps, ","))
+}
+
 // exactly n bytes
 func (g *c15Gen) exact(n int) []byte {
 	g.k++
@@ -631,6 +712,7 @@ func c15GenAll(r *Rand, tier string) []string {
 		var out []string
 		for i := 0; i < v; i++ {
 			out = append(out, c15GenTruncCase(r))
+			out = append(out, c15GenRenameCase(r))
 		}
 		return out
 	}
@@ -648,6 +730,9 @@ func c15GenAll(r *Rand, tier string) []string {
 	}
 	for i := 0; i < nt; i++ {
 		out = append(out, c15GenTruncCase(r))
+	}
+	for i := 0; i < nt; i++ {
+		out = append(out, c15GenRenameCase(r))
 	}
 	// the wiring: followreader.New and the command line (c15wire.go)
 	out = append(out, c15WireGenAll(r, tier)...)
@@ -698,6 +783,9 @@ func c15Stats(cases []string) map[string]int {
 		}
 		if strings.HasPrefix(f[4], "n") {
 			st["history.absent_at_start"]++
+		}
+		if strings.Contains(h, ",m,") {
+			st["history.rename_rotation."+f[1]+".reopen"+f[2]]++
 		}
 		if strings.Contains(h, ",t") {
 			st["history.truncate_in_place."+f[1]+".reopen"+f[2]]++
